@@ -44,6 +44,7 @@ type Config struct {
 	SmtLog        string
 	ExtraOverlay  map[string]string
 	NoMerge       bool
+	NoDivElim     bool
 }
 
 type HarnessResult struct {
@@ -68,6 +69,7 @@ type HarnessResult struct {
 	Params       map[string]int    `json:"params"`
 	Unwind       int               `json:"unwind"`
 	SolverErrors []string          `json:"solver_errors"`
+	Portfolio    map[string]int    `json:"vcs_decided_by_fallback_solver"`
 }
 
 type Output struct {
@@ -104,6 +106,7 @@ func main() {
 	flag.Int64Var(&cfg.Seed, "seed", 0, "seed (exploration order only)")
 	flag.StringVar(&cfg.SmtLog, "smtlog", "", "write the SMT transcript of worker 0 here")
 	flag.BoolVar(&cfg.NoMerge, "nomerge", false, "disable region merging (fork on every symbolic branch)")
+	flag.BoolVar(&cfg.NoDivElim, "nodivelim", false, "keep wide divisions by constants as dividers")
 	flag.StringVar(&overlay, "overlay", "", "extra overlay real=virtual,... (mutants)")
 	flag.Parse()
 	cfg.Harnesses = strings.Split(harn, ",")
@@ -338,7 +341,7 @@ func (s *sched) stop() {
 
 func runHarness(sh *Shared, fn *ssa.Function) *HarnessResult {
 	cfg := sh.cfg
-	res := &HarnessResult{Harness: fn.Name(), Params: cfg.Params, Unwind: cfg.Unwind}
+	res := &HarnessResult{Harness: fn.Name(), Params: cfg.Params, Unwind: cfg.Unwind, Portfolio: map[string]int{}}
 	t0 := time.Now()
 	sc := &sched{}
 	sc.cond = sync.NewCond(&sc.mu)
@@ -367,7 +370,7 @@ func runHarness(sh *Shared, fn *ssa.Function) *HarnessResult {
 				return
 			}
 			defer sol.Close()
-			in := &Interp{sh: sh, prog: sh.prog, tb: tb, sol: sol, cfg: cfg, funcsSeen: map[*ssa.Function]bool{}, harness: fn.Name()}
+			in := &Interp{sh: sh, prog: sh.prog, tb: tb, sol: sol, cfg: cfg, funcsSeen: map[*ssa.Function]bool{}, harness: fn.Name(), portfolio: map[string]int{}}
 			in.forks = sc.push
 			for {
 				prefix, ok := sc.pop()
@@ -434,6 +437,9 @@ func runHarness(sh *Shared, fn *ssa.Function) *HarnessResult {
 			for f := range in.funcsSeen {
 				funcs[describeFn(sh, f)] = true
 			}
+			for who, n := range in.portfolio {
+				res.Portfolio[who] += n
+			}
 			if len(res.Samples) < 8 {
 				res.Samples = append(res.Samples, in.samples...)
 			}
@@ -496,11 +502,13 @@ func (in *Interp) runPath(fn *ssa.Function, prefix []int) (kind, msg string, vio
 	in.fs = nil
 	in.clockN = 0
 	in.lastNow = nil
+	in.lastSec, in.lastNsec = nil, nil
 	in.expectPanic = false
 	in.ghost = map[string]Value{}
 	in.initStored = map[*ssa.Global]bool{}
 	in.speculating = false
 	in.pathViol = nil
+	in.divN = 0
 	in.tb.vars = map[string]*T{}
 	in.sol.BeginPath()
 	in.sol.Push()
